@@ -142,7 +142,10 @@ func runCheck(id, tier string) int {
 		Debug: os.Getenv("VERIF_DEBUG") != "",
 	}
 	if cfg.Solver == "" {
-		cfg.Solver = SolverZ3
+		cfg.Solver = SolverZ3New
+	}
+	if sv := os.Getenv("VERIF_SOLVER"); sv != "" {
+		cfg.Solver = SolverKind(sv)
 	}
 	if tc.Unwind > 0 {
 		cfg.Unwind = tc.Unwind
@@ -476,7 +479,7 @@ func writeEvidence(id, tier string, seed int64, results []*HarnessResult, cc *Ch
 		cov["ssa_load_s"] = P.loadSeconds
 	}
 	if cov["solver"] == "" {
-		cov["solver"] = "z3"
+		cov["solver"] = "z3-new"
 	}
 	ev := map[string]interface{}{
 		"property_id": id, "tier": tier, "seed": seed, "level": "model_checking", "coverage": cov,
